@@ -668,6 +668,21 @@ impl From<Argument> for Expression {
 
 impl Parser for CallStatement {
     fn parse<'a>(this: Option<&Self>, input: TokenStream<'a>) -> IResult<'a, Self> {
+        // An erroneous argument is what is left after the attempt to parse an expression failed.
+        // That attempt may have looked at any number of tokens behind the end of this call,
+        // so a change anywhere behind it can turn the argument into a valid one.
+        let has_error_argument = this.map_or(false, |call| {
+            call.arguments
+                .iter()
+                .any(|arg| matches!(arg.reference, Expression::Error(_)))
+        });
+        if has_error_argument {
+            // let the caller start over without the old node
+            return Err(nom::Err::Error(ParserError {
+                input,
+                kind: crate::error::ParserErrorKind::Affected,
+            }));
+        }
         affected(
             this,
             map(
